@@ -7,7 +7,7 @@ python3 tools/seedstore.py > /tmp/sweep-store.log 2>&1
 grep -c "stored via" /tmp/sweep-store.log
 grep -v "stored via git" /tmp/sweep-store.log | head
 if [ "$1" = verify ]; then
-  ls seeded | xargs -P 6 -I{} tools/seedverify.sh seeded/{} 2>/dev/null | grep -v "^\[" > /tmp/sweep-verify.log
+  ls seeded | xargs -P 6 -I{} tools/seedverify.sh $PWD/seeded/{} 2>/dev/null | grep -v "^\[" > /tmp/sweep-verify.log
   grep -vc "applies=yes suite_with_change=pass demo_with_change=fails demo_without_change=pass" /tmp/sweep-verify.log
   grep -v "applies=yes suite_with_change=pass demo_with_change=fails demo_without_change=pass" /tmp/sweep-verify.log
 fi
